@@ -17,49 +17,6 @@ Theorem c19_split_guards : forall total epochs,
 Proof. intros. split; [apply split_small|apply split_zero_epochs]. Qed.
 Print Assumptions c19_split_guards.
 
-(* each epoch pays out at most that epoch's allocation: whatever the farming module calculates
-   ([calc] is arbitrary: every set of farmers, every pool configuration, every oracle price),
-   what the receivers get in one trigger is at most what is booked as distributed, which is at
-   most the allocation of the epoch being triggered, which fits in the undistributed remainder;
-   the custody balance falls by exactly what was received *)
-Theorem c19_epoch_cap : forall now calc bal g g' bal' paid, 0 <= bal ->
-  trigger now calc bal g = Ok (g', bal', paid) ->
-  0 <= zsum paid <= g_distributed g' - g_distributed g /\
-  g_distributed g' - g_distributed g <= (if g_triggered g' =? g_triggered g then 0 else epoch_allocation g) /\
-  (g_triggered g' <> g_triggered g ->
-     g_triggered g' = g_triggered g + 1 /\ epoch_allocation g <= g_deposit g - g_distributed g) /\
-  bal' = bal - zsum paid /\ g_deposit g' = g_deposit g /\ g_total g' = g_total g.
-Proof.
-  intros now calc bal g g' bal' paid Hb E.
-  pose proof (trigger_spec _ _ _ _ _ _ _ Hb E) as (D1 & D2 & D3 & D4 & D5 & D6 & D7). cbv zeta in *.
-  destruct D7 as [(A & B & C)|(A & B & C & D & F)].
-  - rewrite A, Z.eqb_refl. repeat split; try lia.
-  - destruct (Z.eqb_spec (g_triggered g') (g_triggered g)); [lia|]. repeat split; try lia.
-Qed.
-Print Assumptions c19_epoch_cap.
-
-(* the cumulative amount booked as distributed (an upper bound of what was paid) never exceeds the
-   deposit, for every gauge, after every finite history of gauge creations, epoch triggers at any
-   times (so: skipped epochs, repeated triggers, triggers before the start time, failing farming
-   calculations) and other credits; failed steps change nothing *)
-Theorem c19_cumulative : forall ops g, In g (r_gauges (rrun (mkR 0 []) ops)) ->
-  0 <= g_distributed g <= g_deposit g.
-Proof.
-  intros ops g Hin. pose proof (rrun_inv ops _ rinv_init) as (HG & _ & _).
-  rewrite Forall_forall in HG. exact (HG g Hin).
-Qed.
-Print Assumptions c19_cumulative.
-
-(* PARTIAL custody: the rewards module account holds at least the undistributed remainder of ALL
-   gauges (hence of the active ones) after every history.  Missing: swap-fee gauges (their
-   DepositAmount is itself the remainder), the external locker / vault / lend reward programs of
-   rewards/keeper/iter.go (their "available" amounts share the same account), other debits of the
-   module account.  The harness checks the inequality on the implementation after every step. *)
-Theorem c19_custody_partial : forall ops,
-  let s := rrun (mkR 0 []) ops in undistributed (r_gauges s) <= r_bal s /\ 0 <= r_bal s.
-Proof. intros ops. pose proof (rrun_inv ops _ rinv_init) as (_ & HU & HB). split; assumption. Qed.
-Print Assumptions c19_custody_partial.
-
 (* epoch timing: a tick triggers at most one epoch and only strictly after its end; after a halt of
    more than two durations the missed epochs are skipped without any distribution *)
 Theorem c19_epoch_timing : forall now e e' r, 0 < e_dur e -> epoch_tick now e = (e', r) ->
@@ -103,13 +60,6 @@ Print Assumptions c19_share_refuted.
 (* ---- non-vacuity ---- *)
 Example c19_split_example : split 150 11 = Ok [13; 13; 13; 13; 14; 14; 14; 14; 14; 14; 14].
 Proof. vm_compute. reflexivity. Qed.
-
-Example c19_history_example :
-  let s := rrun (mkR 0 []) [Create 100 3 10 5 1000; Trig 0 20 (Ok [10; 20]); Trig 0 30 (Ok [30; 30]);
-                            Trig 0 40 (Err 7); Trig 0 50 (Ok [33]); Trig 0 60 (Ok [34]); Trig 0 70 (Ok [1])] in
-  r_bal s = 3 /\ map g_distributed (r_gauges s) = [97] /\ map g_triggered (r_gauges s) = [3] /\
-  map g_active (r_gauges s) = [false].
-Proof. vm_compute. repeat split. Qed.
 
 Example c19_share_example : farm_rewards 10000000000 [1000000000000000000000; 2000000000000000000000; 7000000000000000000000]
   = [1000000000; 2000000000; 7000000000].
